@@ -49,7 +49,14 @@ Definition dd_of (dt : list (jv * res info)) : dmapper :=
 
 Inductive case :=
 | CRound (f : forest) (m : smd) (subs : list Z) (dt : list (jv * res info)) (next : Z)
-| CLoad (obj : list jv) (dt : list (jv * res info)) (next : Z).
+| CLoad (obj : list jv) (dt : list (jv * res info)) (next : Z)
+| CNode (f : forest) (calc : Z) (target : Z) (obj : list jv) (dt : list (jv * res info)) (next : Z).
+
+(* calc_data_id hooks of harness/build.py: 0 default hash, 1 "name", 2 "mod7" *)
+Definition calc_of (c : Z) : info -> did :=
+  if Z.eqb c 1 then (fun i => DStr (i_name i))
+  else if Z.eqb c 2 then (fun i => DInt (i_hash i mod 7))
+  else default_did.
 
 Definition sx_dump (l : list jv) : sx := L (map sx_jv l).
 Definition sx_load (r : res forest) : sx := sx_res (fun f => L (map sx_rebuilt f)) r.
@@ -67,4 +74,6 @@ Definition run14 (c : case) : sx :=
           sx_load (tree_from_dict (dd_of dt) (Z.to_nat next) dump) ]
   | CLoad obj dt next =>
       L [ sx_load (tree_from_dict (dd_of dt) (Z.to_nat next) obj) ]
+  | CNode f calc target obj dt next =>
+      L [ sx_load (node_from_dict (dd_of dt) (calc_of calc) (Z.to_nat next) f (Z.to_nat target) obj) ]
   end.
